@@ -115,6 +115,68 @@ def size_features(src, ver):
     return ["andor-beyond-u16"] if first * 22 >= limit else []
 
 
+def long_programs(seed, n):
+    """programs whose jump arguments exceed one byte on every target (>= 256 bytes resp. code units between a jump and its
+    target), so that every EXTENDED_ARG path of the older targets is exercised: `for!`/`while!` loops with 12-30 statements and
+    at least two iterations, long `if!` branches, long subroutine bodies, and `and`/`or`/`if` expressions with a long operand.
+    Trees are fraggen trees (emitted by fraggen.to_erg); operand expressions come from the typed generator."""
+    out = []
+    for i in range(n):
+        r = fraggen.Rng(seed * 2654435761 + 77000 + i)
+        g = fraggen.Gen(r, floats=False, lists=False, funcs=False, lambdas=False, loops=False, conds=False, patterns=False,
+                        interp=False, big_lits=False, str_mul=False)
+        kind = i % 5
+        nst = [28, 24, 14, 22, 30, 18][(i // 5 + i) % 6]      # number of statements in the long body
+        prog = [("def", "a0", "Nat", ("lit", "Nat", 3), False), ("def", "s0", "Str", ("lit", "Str", "q"), False),
+                ("def", "t0", "Bool", ("lit", "Bool", True), False)]
+        g.vars = [("a0", "Nat"), ("s0", "Str"), ("t0", "Bool")]
+
+        def stmts(env, k):
+            return [("print", [g.expr(r.pick(["Nat", "Int", "Str", "Bool"]), 2, env), g.expr("Nat", 1, env), ("lit", "Nat", j)]) for j in range(k)]
+
+        def long_nat(env, terms):
+            e = g.expr("Nat", 1, env)
+            for _ in range(terms):
+                e = ("bin", r.pick(["+", "*", "+"]), e, g.expr("Nat", 1, env), "Nat")
+            return e
+
+        def long_bool(env, terms, op):
+            e = ("cmp", "<", long_nat(env, 3), long_nat(env, 3))
+            for _ in range(terms):
+                e = ("boolop", r.pick(["and", "or"]), ("cmp", r.pick(["<", "<=", "==", ">"]), g.expr("Nat", 1, env), g.expr("Nat", 1, env)), e)
+            return ("boolop", op, ("cmp", r.pick(["<", ">="]), ("var", "a0", "Nat"), ("lit", "Nat", r.pick([1, 5]))), e)
+
+        if kind == 0:
+            lo = r.below(2)
+            prog.append(("for", "i1", lo, lo + 2 + r.below(2), stmts(g.vars + [("i1", "Nat")], nst)))
+            feats = ["long-for"]
+        elif kind == 1:
+            prog.append(("while", "c1", 2 + r.below(2), stmts(g.vars, nst)))
+            feats = ["long-while"]
+        elif kind == 2:
+            prog.append(("ifstmt", g.expr("Bool", 2), stmts(g.vars, nst), stmts(g.vars, nst)))
+            prog.append(("ifstmt", ("not", g.expr("Bool", 1)), stmts(g.vars, nst), stmts(g.vars, 2)))
+            feats = ["long-if-stmt"]
+        elif kind == 3:
+            params = [("p1", "Nat"), ("p2", "Str")]
+            env = params + g.vars
+            body = []
+            for j in range(nst):
+                body.append(("def", f"l{j}", "Nat", long_nat(env, 2), False))
+                env = env + [(f"l{j}", "Nat")]
+            prog.append(("func", "f1", params, "Nat", body, long_nat(env, 6)))
+            prog.append(("print", [("call", "f1", [("lit", "Nat", 2), ("lit", "Str", "z")], "Nat"), ("call", "f1", [("var", "a0", "Nat"), ("var", "s0", "Str")], "Nat")]))
+            feats = ["long-func"]
+        else:
+            prog.append(("print", [long_bool(g.vars, 14, "and"), long_bool(g.vars, 14, "or")]))
+            prog.append(("def", "w1", "Nat", ("if", g.expr("Bool", 1), long_nat(g.vars, 26), long_nat(g.vars, 26), "Nat"), False))
+            prog.append(("print", [("var", "w1", "Nat"), ("if", ("not", ("var", "t0", "Bool")), long_nat(g.vars, 26), long_nat(g.vars, 26), "Nat")]))
+            feats = ["long-andor-if-expr"]
+        prog.append(("print", [("lit", "Str", "end"), ("var", "a0", "Nat")]))
+        out.append((f"L{i}", fraggen.to_erg(prog), feats))
+    return out
+
+
 def run(ctx):
     thorough = ctx.tier == "thorough"
     jobs = int(os.environ.get("VERIF_JOBS", "10"))
@@ -189,6 +251,8 @@ def run(ctx):
         g = fraggen.Gen(fraggen.Rng(ctx.seed * 104729 + 130000 + i), big_lits=(i % 2 == 0), hard_strings=(i % 4 == 0))
         p = g.program()
         progsB.append((f"b{i}", fraggen.to_erg(p), sorted(g.features | fraggen.tree_features(p))))
+    # long bodies: jump arguments >= 256 on every target (quick tier: one program of each of the five shapes)
+    progsB += long_programs(ctx.seed, 60 if thorough else 5)
     corpusB = []
     for cid, inp in core.corpus_rows("C13"):
         m = re.match(r'^\(src "(.*)"\)$', inp)
